@@ -652,8 +652,10 @@ func c10Enumerate(tier string, emit explore.Emit) {
 				for _, between := range []bool{false, true} {
 					l, n, between := l, n, between
 					emit(explore.Case{Family: "several-oversized", Size: 4,
-						Desc: func() any { return map[string]any{"limit": l, "oversized_messages_in_one_session": n, "served_query_between": between} },
-						Run:  func() explore.Result { return c10RunMany(l, n, between) }})
+						Desc: func() any {
+							return map[string]any{"limit": l, "oversized_messages_in_one_session": n, "served_query_between": between}
+						},
+						Run: func() explore.Result { return c10RunMany(l, n, between) }})
 				}
 			}
 		}
